@@ -83,17 +83,21 @@ class SingleRandom(Slice):
 
     def gen(self, rng, index, tier):
         prog = gen_rv.gen_program(rng, maxlen=30)
-        return {"spec": gen_rv.gen_state_spec(rng, prog), "steps": 400}
+        case = {"spec": gen_rv.gen_state_spec(rng, prog), "steps": 400}
+        if rng.random() < 0.15:     # a second live simulation (either mode) stepped in between
+            case["other"] = [gen_rv.gen_state_spec(rng, gen_rv.gen_program(rng, maxlen=12)),
+                             rng.choice(["single_stage_pipeline", "five_stage_pipeline"])]
+        return case
 
     def run(self, case, model):
-        it = impl_trace(case["spec"], case["steps"])
+        it = impl_trace(case["spec"], case["steps"], other=case.get("other"))
         mt = model_trace(model, 1, case["spec"], case["steps"])
         d = compare_traces(it, mt, NAMES)
         return ([("disagreement", d)] if d else []), trace_classes(case["spec"][0], it)
 
     def shrink(self, case):
         for s in gen_rv.shrink_spec(case["spec"]):
-            yield {"spec": s, "steps": case["steps"]}
+            yield dict(case, spec=s)
 
     def describe(self, case):
         return {"program": gen_rv.program_text(case["spec"][0]), "regs": case["spec"][1], "mem": case["spec"][2]}
